@@ -214,3 +214,35 @@ macro_rules! notimeit {
     }
 }
 pub(crate) use notimeit;
+
+// read-only view of the timer tree for the verification harness (/verif, property C04)
+#[cfg(feature = "verif-hooks")]
+pub mod verif_hooks {
+    use super::*;
+
+    /// one timer of the tree: its path of keys from the root, whether it is running
+    /// (`start.is_some()`), and its accumulated `elapsed` in nanoseconds
+    pub type Row = (Vec<&'static str>, bool, u128);
+
+    fn walk(map: &SubTimersMap, prefix: &mut Vec<&'static str>, out: &mut Vec<Row>) {
+        for (key, t) in map.iter() {
+            prefix.push(*key);
+            out.push((prefix.clone(), t.start.is_some(), t.elapsed.as_nanos()));
+            walk(&t.subtimers, prefix, out);
+            prefix.pop();
+        }
+    }
+
+    /// every timer of the tree, sorted by path
+    pub fn rows(t: &Timers) -> Vec<Row> {
+        let mut out = vec![];
+        walk(&t.subtimers, &mut vec![], &mut out);
+        out.sort();
+        out
+    }
+
+    /// the call stack of `start_as_current` / `stop_current`
+    pub fn stack(t: &Timers) -> Vec<&'static str> {
+        t.stack.clone()
+    }
+}
